@@ -338,12 +338,20 @@ func (c *cTx) Clone() Context {
 		rec:   c.rec,
 		req:   c.req.Clone(c.req.Context()),
 		fox:   c.fox,
+		tree:  c.tree,
 		route: c.route,
 		scope: c.scope,
 		tsr:   c.tsr,
 	}
 
-	cp.rec.ResponseWriter = noopWriter{c.rec.Header().Clone()}
+	// The response state is the one of the current writer, which is not the embedded recorder
+	// when the context was obtained from Lookup or CloneWith.
+	cp.rec.ResponseWriter = noopWriter{c.w.Header().Clone()}
+	cp.rec.status = c.w.Status()
+	cp.rec.size = notWritten
+	if c.w.Written() {
+		cp.rec.size = c.w.Size()
+	}
 	cp.w = noUnwrap{&cp.rec}
 	if !c.tsr {
 		params := make(Params, len(*c.params))
